@@ -217,6 +217,36 @@ func entriesRule(ents []entry) (sig, what string) {
 	return "", ""
 }
 
+// keyReuse: "use unique keys", read over every key field of the update.  A
+// custodian or payee spend key that equals ANY other key field of the update
+// (spend or view key, custodian or payee, same or another entry) is a reused
+// key.  Reuse of a spend key, or of a view key of an EARLIER entry, is what the
+// implementation's own filter is written to refuse; a spend key equal to a view
+// key of its own or a LATER entry has its own signature (recorded finding).
+const sigLaterView = "accept-spend-key-equals-later-view-key"
+
+func keyReuse(ents []entry) (sig, what string) {
+	names := []string{"payee spend", "payee view", "custodian spend", "custodian view"}
+	fields := func(e entry) [][]byte { return [][]byte{e.ps, e.pv, e.cs, e.cv} }
+	for i, e := range ents {
+		for _, a := range []int{0, 2} {
+			for j, f := range ents {
+				for b, v := range fields(f) {
+					if (i == j && a == b) || !bytes.Equal(fields(e)[a], v) {
+						continue
+					}
+					w := fmt.Sprintf("entry %d %s key = entry %d %s key", i, names[a], j, names[b])
+					if b == 0 || b == 2 || j < i {
+						return "accept-duplicate-key", w
+					}
+					sig, what = sigLaterView, w
+				}
+			}
+		}
+	}
+	return sig, what
+}
+
 // price by the property text: 100 per new entry, 1 per changed entry, against
 // the previous state (entries identified by the custodian address).
 func priceOf(ents []entry, prev *Prev) *big.Int {
@@ -532,6 +562,8 @@ func judgeParse(c *vh.Ctx, cs Case, extra []byte, req *common.CustodianUpdateReq
 	}
 	if s, w := entriesRule(ents); s != "" {
 		c.Fail(s, w, cs)
+	} else if s, w := keyReuse(ents); s != "" {
+		c.Fail(s, "a key is used twice: "+w, cs)
 	}
 }
 
@@ -922,6 +954,124 @@ func (g *gen) mutated(m string) Case {
 	return cs
 }
 
+// ---- one key reused across roles and entries, everything else canonical ---------------
+
+func privOf(sp spec, field string) crypto.Key {
+	switch field {
+	case "ps":
+		return sp.payee.PrivateSpendKey
+	case "pv":
+		return sp.payee.PrivateViewKey
+	case "cs":
+		return sp.cust.PrivateSpendKey
+	}
+	return sp.cust.PrivateViewKey
+}
+
+// withSpend: an address whose spend key pair is priv (so the harness can sign
+// for it) and whose view key is fresh: exactly one key is reused.
+func (g *gen) withSpend(priv crypto.Key) common.Address {
+	v := g.addr()
+	return common.Address{PrivateSpendKey: priv, PublicSpendKey: priv.Public(),
+		PrivateViewKey: v.PrivateViewKey, PublicViewKey: v.PublicViewKey}
+}
+
+// crossCase: a sorted, fully signed, fully paid, properly approved update of n
+// entries in which entry X's field f (payee or custodian SPEND key) is entry
+// Y's field gf.  order: "src-first" (Y before X), "src-later" (Y after X),
+// "own" (X = Y); dist: "adjacent" | "far".  Only a uniqueness rule can refuse it.
+func (g *gen) crossCase(f, gf, order, dist string, n int) (Case, bool) {
+	for try := 0; try < 400; try++ {
+		s := g.scenario(n, "allnew")
+		specs := s.specs
+		var x, y int
+		switch {
+		case order == "own":
+			x = g.r.Intn(n)
+			y = x
+		case dist == "adjacent":
+			a := g.r.Intn(n - 1)
+			x, y = a+1, a
+			if order == "src-later" {
+				x, y = a, a+1
+			}
+		default:
+			a := g.r.Intn(n - 3)
+			b := a + 3 + g.r.Intn(n-a-3)
+			x, y = b, a
+			if order == "src-later" {
+				x, y = a, b
+			}
+		}
+		src := specs[y]
+		idX, idY := specs[x].signer.PublicSpendKey, specs[y].signer.PublicSpendKey
+		na := g.withSpend(privOf(src, gf))
+		if order == "own" && ((f == "ps" && gf == "pv") || (f == "cs" && gf == "cv")) {
+			// spend key = view key of the same address
+			na.PrivateViewKey, na.PublicViewKey = na.PrivateSpendKey, na.PublicSpendKey
+		}
+		if f == "ps" {
+			specs[x].payee = na
+		} else {
+			specs[x].cust = na
+			sortSpecs(specs)
+			px, py := -1, -1
+			for i, sp := range specs {
+				if sp.signer.PublicSpendKey == idX {
+					px = i
+				}
+				if sp.signer.PublicSpendKey == idY {
+					py = i
+				}
+			}
+			if order != "own" {
+				d := px - py
+				okOrder := (order == "src-first" && d > 0) || (order == "src-later" && d < 0)
+				if d < 0 {
+					d = -d
+				}
+				okDist := (dist == "adjacent" && d == 1) || (dist == "far" && d >= 3)
+				if !okOrder || !okDist {
+					continue
+				}
+			}
+		}
+		extra := approve(assemble(s.newCust, g.entries(specs)), &s.prevCust.PrivateSpendKey)
+		kind := fmt.Sprintf("cross/%s=%s/%s/%s", f, gf, order, dist)
+		if order == "own" {
+			kind = fmt.Sprintf("cross/%s=own-%s", f, gf)
+		}
+		return g.validateCase(kind, extra, s.prev, g.priceFor(extra, s.prev), n), true
+	}
+	return Case{}, false
+}
+
+func (g *gen) crossAll(run func(Case)) {
+	for _, f := range []string{"ps", "cs"} {
+		for _, gf := range []string{"ps", "pv", "cs", "cv"} {
+			if f == "cs" && gf == "cs" {
+				continue // the same custodian key twice: mutation dup-custodian
+			}
+			for _, order := range []string{"src-first", "src-later"} {
+				for _, dist := range []string{"adjacent", "far"} {
+					n := 7
+					if g.r.Chance(1, 4) {
+						n = g.r.Range(8, 12)
+					}
+					if cs, ok := g.crossCase(f, gf, order, dist, n); ok {
+						run(cs)
+					}
+				}
+			}
+			if f != gf {
+				if cs, ok := g.crossCase(f, gf, "own", "", 7); ok {
+					run(cs)
+				}
+			}
+		}
+	}
+}
+
 // corpus: boundary cases first.
 func (g *gen) corpus() []Case {
 	var out []Case
@@ -967,6 +1117,21 @@ func (g *gen) corpus() []Case {
 		s.prev.Nodes = s.prev.Nodes[:7]
 		extra = approve(assemble(s.newCust, es), &s.prevCust.PrivateSpendKey)
 		out = append(out, g.validateCase("corpus/same-custodian-add", extra, s.prev, big.NewInt(100*100000000), 8))
+	}
+	// one key reused across roles: payee spend = another entry's custodian spend (both orders),
+	// custodian spend = another entry's payee spend, a spend key that is an earlier entry's view
+	// key (refused) and the same with the view key in a LATER entry (accepted: recorded finding)
+	for _, q := range [][4]string{
+		{"ps", "cs", "src-first", "adjacent"}, {"ps", "cs", "src-later", "far"},
+		{"cs", "ps", "src-first", "far"}, {"cs", "ps", "src-later", "adjacent"},
+		{"ps", "pv", "src-first", "far"}, {"cs", "cv", "src-first", "adjacent"},
+		{"ps", "cv", "src-later", "adjacent"}, {"cs", "pv", "src-later", "far"},
+		{"ps", "cv", "own", ""},
+	} {
+		if cs, ok := g.crossCase(q[0], q[1], q[2], q[3], 7); ok {
+			cs.Kind = "corpus/" + cs.Kind
+			out = append(out, cs)
+		}
 	}
 	// empty and tiny extras
 	for _, l := range []int{0, 1, 63, 64, 127, 128, 128 + entrySize, 128 + 7*entrySize - 1} {
@@ -1026,6 +1191,7 @@ func main() {
 	c.Rep.Rule = "custodian updates of 7..50 entries built with real keys and signatures (common.EncodeCustodianNode), " +
 		"then reordered / duplicated / byte-mutated / re-approved, against previous custodian states (none, error, empty, same set, " +
 		"overlapping with changed payee or custodian keys, duplicate entries) and amounts at price-1, price, price+1; " +
+		"plus otherwise canonical updates in which one spend key is reused across roles and entries (every field pair, both orders, adjacent and far); " +
 		"non-trivial = the real parser accepts the extra so validation reaches the approval/price core (validate), " +
 		"the extra has header + >= 7 whole entries + signature (parse), the entry has 353 bytes (node); distinct by hash of all inputs"
 	if c.Replay != "" {
@@ -1050,6 +1216,9 @@ func main() {
 	}
 	for i := 0; i < nMut; i++ {
 		run(c, g.mutated(mutations[i%len(mutations)]))
+	}
+	for i := c.Scale(1, 25); i > 0; i-- {
+		g.crossAll(func(cs Case) { run(c, cs) })
 	}
 	for i := 0; i < nParse; i++ {
 		run(c, g.parseCase())
